@@ -28,9 +28,13 @@ Qed.
 
 Lemma gen_resolvable_agree : forall c1 c2, gen_resolvable c1 c2 = Ok (resolvable c1 c2).
 Proof.
-  intros c1 c2. unfold gen_resolvable, resolvable. rewrite zinter_common.
-  destruct (common c1 c2) as [|r [|r2 t]]; cbn [llen length]; try reflexivity.
-  - cbn -[zdiff zunion zremove]. rewrite !zdiff_single. reflexivity.
+  intros c1 c2. unfold gen_resolvable, resolvable. rewrite ?zinter_common.
+  destruct (common c1 c2) as [|r [|r2 t]] eqn:Ec; cbn [llen length]; try reflexivity.
+  - (* an always-true guard (`assert -resolvent in c1 and resolvent in c2`) is discharged from the model: r is a clash *)
+    assert (Hr : In r (common c1 c2)) by (rewrite Ec; cbn; auto).
+    apply (proj1 (common_in c1 c2 r)) in Hr as [H2 H1].
+    pose proof (proj2 (zmem_in _ _) H1) as M1. pose proof (proj2 (zmem_in _ _) H2) as M2.
+    cbn -[zdiff zunion zremove zmem]. rewrite ?M1, ?M2. cbn [andb]. rewrite !zdiff_single. reflexivity.
   - assert (E : (llen (r :: r2 :: t) =? 1) = false) by (apply Z.eqb_neq; unfold llen; cbn [length]; lia).
     rewrite E. reflexivity.
 Qed.
